@@ -150,7 +150,7 @@ def validate(name, trace_path, nproc=8):
     return list(agg.values()), dict(events=events, skipped=skipped, outofdomain=outofdomain)
 
 
-MUTATING = {'AddResource', 'AddDataset', 'AddKey', 'InsertData', 'Annotate', 'RemoveAnnotation', 'RemoveResource',
+MUTATING = {'AnnotateBatch', 'Reindex', 'AddResource', 'AddDataset', 'AddKey', 'InsertData', 'Annotate', 'RemoveAnnotation', 'RemoveResource',
             'RemoveDataset', 'RemoveData', 'RemoveKey', 'StripAnnotationIds', 'StripDataIds', 'ShrinkToFit', 'RoundTrip', 'ProtectText', 'Transpose'}
 
 
@@ -260,7 +260,8 @@ def mismatch_diffs(m):
         if not ok['outcome']:
             d.append(('outcome', 'ok', rec['outcome'] + ':' + str((rec.get('x') or {}).get('error', ''))[:80]))
         elif not ok['inv']:
-            d.append(('loaded_state_invariants', 'StateOK', 'violated'))
+            bad = sorted(k for k, v in (exp.get('invs') or {}).items() if not v)
+            d.append(('loaded_state_invariants' + ('_' + '_'.join(bad) if bad else ''), 'StateOK', 'violated'))
         elif not ok['view']:
             if rec['a']['format'] == 'cbor':
                 d += diff(canon_state(exp['st']), canon_state(rec['post']), 'st')
@@ -308,9 +309,11 @@ def attribute(m, diffs):
     if exp.get('roundtrip'):
         if rec['a'].get('edit', {}).get('has'):
             return {'C18'}
-        return {dict(json='C05', cbor='C11', csv='C15')[rec['a']['format']]}
+        return {dict(json='C05', cbor='C11', csv='C15', reindex='C03')[rec['a']['format']]}
     if ev == 'Transpose':
         return {'C16'}
+    if ev == 'Reindex':
+        return {'C03'}
     expected_err = exp.get('outcome') in ('err', 'either')
     if expected_err and ev not in REMOVALS:
         if rec['outcome'] == 'ok' and exp.get('outcome') == 'err':
@@ -329,6 +332,9 @@ def attribute(m, diffs):
         if p == 'api.exercise':
             props.add('C02')
         if ev in REMOVALS:
+            # "touches nothing else": a removal after which an index row, an id map or an item differs from the specification
+            if p.startswith('st.ix.') or p.startswith('st.idm'):
+                props.add('C02')
             if p == 'outcome' or p.endswith('.alive') or p.startswith('st.anns') or p.startswith('st.res') \
                     or p.startswith('st.sets') or p == 'projection':
                 props.add('C02')
@@ -384,6 +390,8 @@ def arg_features(rec):
             f.append('off=' + a['off']['bk'] + a['off']['ek'])
     elif ev == 'OffsetReport':
         f.append('m=%d' % a['m'])
+    elif ev == 'AnnotateBatch':
+        f.append('via=%s,notarget=%d' % (a['via'], int(any(i['target']['kind'] == 'None' for i in a['items']))))
     elif ev == 'FindData':
         f.append('via=%s,set=%s,key=%s,op=%s,v=%s' % (a['via'], 'y' if a['set'] else 'n', 'y' if a['key'] else 'n', a['op'], a['v']['t']))
     elif ev == 'Load':
@@ -456,8 +464,10 @@ def fingerprint(m, diffs):
         return '|'.join([rec['ev'], 'got=' + rec['outcome'], ','.join(classes), ','.join(arg_features(rec))])
     # collapse detail: keep top-level classes only
     classes = sorted(set(re.sub(r'^(st\.\w+(\[\*\])?(\.\w+)?|api\.\w+(\[\*\])?(\.\w+)?|\w+).*$', r'\1', p) for p in paths))
-    return '|'.join([rec['ev'], 'exp=' + str(exp.get('outcome', 'ro')), 'got=' + rec['outcome'], ','.join(classes),
-                     ','.join(arg_features(rec))])
+    feats = arg_features(rec)
+    if exp.get('why'):
+        feats.append('why=' + exp['why'])
+    return '|'.join([rec['ev'], 'exp=' + str(exp.get('outcome', 'ro')), 'got=' + rec['outcome'], ','.join(classes), ','.join(feats)])
 
 
 def load_known():
